@@ -303,16 +303,23 @@ def adjust_offsets_w_sustain(
     pitches = np.array([n["midi_pitch"] for n in notes])
     note_ons = np.array([n["note_on"] for n in notes])
 
+    note_offs = np.array([n["note_off"] for n in notes])
+
     for pitch in np.unique(pitches):
         pitch_indices = np.where(pitches == pitch)[0]
 
-        sorted_indices = pitch_indices[np.argsort(note_ons[pitch_indices])]
-        sorted_note_ons = note_ons[sorted_indices]
-        sorted_sound_offs = offs[sorted_indices]
-
-        adjusted_sound_offs = np.minimum(sorted_sound_offs[:-1], sorted_note_ons[1:])
-
-        offs[sorted_indices[:-1]] = adjusted_sound_offs
+        order = np.argsort(note_ons[pitch_indices], kind="stable")
+        sorted_note_ons = note_ons[pitch_indices][order]
+        position = np.empty(len(order), dtype=int)
+        position[order] = np.arange(len(order))
+        # first onset of another note of the same pitch at or after the
+        # release of each note (an earlier onset belongs to an overlapping
+        # note and must not cut the note before its release)
+        next_on = np.searchsorted(sorted_note_ons, note_offs[pitch_indices], side="left")
+        next_on = np.where(next_on == position, next_on + 1, next_on)
+        has_next = next_on < len(sorted_note_ons)
+        clipped = pitch_indices[has_next]
+        offs[clipped] = np.minimum(offs[clipped], sorted_note_ons[next_on[has_next]])
 
     for offset, note in zip(offs, notes):
         note["sound_off"] = offset
